@@ -5,6 +5,7 @@ plain observations (no verdicts) as JSON.  argv: job.json out.json
 modes (job['mode']):
   handle : variables as handles - bounds, update/value sequences, independent raw reads of the lens
   merit  : Operand.value/fun, fun_array, sum_squared, OptimizerGeneric._fun
+  kern   : identity scale/inverse_scale methods called directly (batched kernel correspondence)
   opt    : optimise / undo sequences through the five front ends with every parent-process
            _fun call logged
 """
@@ -269,11 +270,20 @@ def run_opt(case):
     return out
 
 
+def run_kern(case):
+    """call one real method (scale / inverse_scale of a behaviour class) on a bare stub"""
+    import importlib
+    import types
+    mod = importlib.import_module(case['file'][:-3].replace('/', '.'))
+    fn = getattr(getattr(mod, case['cls']), case['func'])
+    return [fnum(fn(types.SimpleNamespace(), float.fromhex(x))) for x in case['xs']]
+
+
 def main():
     job = json.load(open(sys.argv[1]))
     _imports()
     _install_classes()
-    fn = {'handle': run_handle, 'merit': run_merit, 'opt': run_opt}[job['mode']]
+    fn = {'handle': run_handle, 'merit': run_merit, 'opt': run_opt, 'kern': run_kern}[job['mode']]
     res = []
     for case in job['cases']:
         try:
